@@ -838,7 +838,9 @@ impl RecipeTime {
             RecipeTime::Composed {
                 prep_time,
                 cook_time,
-            } => prep_time.iter().chain(cook_time.iter()).sum(),
+            } => prep_time
+                .unwrap_or(0)
+                .saturating_add(cook_time.unwrap_or(0)),
         }
     }
 }
